@@ -72,11 +72,11 @@ func findFuncDecl(pk *packages.Package, recv, name string) *ast.FuncDecl {
 }
 
 type funcEntry struct {
-	Name     string
-	Impl     types.Object // function object bound in the entry, nil for placeholder
-	ImplName string       // "impl.Where" / "notImplemented"
-	Min, Max int
-	Pos      token.Pos
+	Name        string
+	Impl        types.Object // function object bound in the entry, nil for placeholder
+	ImplName    string       // "impl.Where" / "notImplemented"
+	Min, Max    int
+	Pos         token.Pos
 	Placeholder bool
 }
 
@@ -89,7 +89,13 @@ func readFuncTable(p *Program, varName string) ([]funcEntry, error) {
 	init, _ := findVarDecl(pk, varName)
 	cl, ok := init.(*ast.CompositeLit)
 	if !ok {
-		return nil, fmt.Errorf("anchor: funcs.%s is not a composite literal", varName)
+		// not a plain literal (built through a helper, filled from name lists): the entries
+		// are read off the package initialiser's SSA instead
+		out, err := readFuncTableSSA(p, varName)
+		if err != nil {
+			return nil, fmt.Errorf("anchor: funcs.%s is not a composite literal and %v", varName, err)
+		}
+		return out, nil
 	}
 	var out []funcEntry
 	for _, el := range cl.Elts {
@@ -214,4 +220,219 @@ func unquote(s string) string {
 		return u
 	}
 	return s
+}
+
+// readFuncTableSSA reads the entries of a package-level FunctionTable from the
+// SSA of the package initialiser: the map that is stored into the variable is
+// followed back through in-repo functions that hand their map parameter back,
+// and every MapUpdate on it is an entry — with a constant key, or, inside a
+// `range` over a constant package-level []string, one entry per name.  The
+// entry value is a Function composite (fields read off the stores into its
+// temporary) or a load of a package-level Function variable (a placeholder).
+func readFuncTableSSA(p *Program, varName string) ([]funcEntry, error) {
+	g, err := p.Global("fhirpath/internal/funcs", varName)
+	if err != nil {
+		return nil, err
+	}
+	initFn := g.Pkg.Func("init")
+	if initFn == nil {
+		return nil, fmt.Errorf("package initialiser not found")
+	}
+	var src ssa.Value
+	n := 0
+	for _, b := range initFn.Blocks {
+		for _, ins := range b.Instrs {
+			if st, ok := ins.(*ssa.Store); ok && st.Addr == ssa.Value(g) {
+				src, n = st.Val, n+1
+			}
+		}
+	}
+	if n != 1 {
+		return nil, fmt.Errorf("%d stores to the variable in the package initialiser", n)
+	}
+	entries := map[string]funcEntry{}
+	var readValue func(v ssa.Value, depth int) (funcEntry, error)
+	readValue = func(v ssa.Value, depth int) (funcEntry, error) {
+		var e funcEntry
+		if depth > 3 {
+			return e, fmt.Errorf("value too deep")
+		}
+		ld, ok := v.(*ssa.UnOp)
+		if !ok || ld.Op != token.MUL {
+			return e, fmt.Errorf("unsupported entry value %T", v)
+		}
+		switch src := ld.X.(type) {
+		case *ssa.Global:
+			// a named Function variable: its own initialiser
+			gi := src.Pkg.Func("init")
+			for _, b := range gi.Blocks {
+				for _, ins := range b.Instrs {
+					if fa, ok := ins.(*ssa.FieldAddr); ok && fa.X == ssa.Value(src) && fa.Referrers() != nil {
+						for _, ref := range *fa.Referrers() {
+							if st, ok := ref.(*ssa.Store); ok {
+								readField(&e, fieldName(fa), st.Val)
+							}
+						}
+					}
+					if st, ok := ins.(*ssa.Store); ok && st.Addr == ssa.Value(src) {
+						if inner, err := readValue(st.Val, depth+1); err == nil {
+							e = inner
+						}
+					}
+				}
+			}
+			e.ImplName = src.Name()
+			e.Placeholder = true
+			if e.Impl == nil {
+				return e, fmt.Errorf("variable %s has no function", src.Name())
+			}
+			return e, nil
+		case *ssa.Alloc:
+			if src.Referrers() == nil {
+				return e, fmt.Errorf("empty composite")
+			}
+			for _, ref := range *src.Referrers() {
+				if fa, ok := ref.(*ssa.FieldAddr); ok && fa.Referrers() != nil {
+					for _, r2 := range *fa.Referrers() {
+						if st, ok := r2.(*ssa.Store); ok && st.Addr == ssa.Value(fa) {
+							readField(&e, fieldName(fa), st.Val)
+						}
+					}
+				}
+			}
+			if e.Impl == nil {
+				return e, fmt.Errorf("no Func field")
+			}
+			return e, nil
+		}
+		return e, fmt.Errorf("unsupported entry source %T", ld.X)
+	}
+	var collect func(m ssa.Value, depth int) error
+	collectUpdates := func(fn *ssa.Function, m ssa.Value) error {
+		if m.Referrers() == nil {
+			return nil
+		}
+		for _, ref := range *m.Referrers() {
+			mu, ok := ref.(*ssa.MapUpdate)
+			if !ok || mu.Map != m {
+				continue
+			}
+			e, err := readValue(mu.Value, 0)
+			if err != nil {
+				return fmt.Errorf("entry at %s: %v", p.instrPos(mu), err)
+			}
+			e.Pos = mu.Pos()
+			if k, ok := mu.Key.(*ssa.Const); ok && k.Value != nil && k.Value.Kind() == constant.String {
+				e.Name = constant.StringVal(k.Value)
+				entries[e.Name] = e
+				continue
+			}
+			// key = element of a range over a constant []string
+			tab := tableOfElement(mu.Key)
+			if tab == nil {
+				return fmt.Errorf("entry at %s has a key that is neither constant nor an element of a name list", p.instrPos(mu))
+			}
+			if prm, ok := tab.(*ssa.Parameter); ok {
+				tab = resolveParam(prm)
+			}
+			names, ok := constStringElems(tab, 0)
+			if !ok {
+				return fmt.Errorf("the name list at %s is not a constant []string", p.instrPos(mu))
+			}
+			for _, nm := range names {
+				ee := e
+				ee.Name = nm
+				entries[nm] = ee
+			}
+		}
+		return nil
+	}
+	collect = func(m ssa.Value, depth int) error {
+		if depth > 3 {
+			return fmt.Errorf("map origin too deep")
+		}
+		switch x := m.(type) {
+		case *ssa.MakeMap:
+			return collectUpdates(x.Parent(), x)
+		case *ssa.ChangeType:
+			return collect(x.X, depth+1)
+		case *ssa.Call:
+			sc := x.Common().StaticCallee()
+			if sc == nil || !inRepoFn(sc) || len(sc.Blocks) == 0 {
+				return fmt.Errorf("the table is the result of %s", callName(x.Common()))
+			}
+			// the callee hands one of its parameters back
+			o, ok := structOriginOfMapResult(sc)
+			if !ok {
+				return fmt.Errorf("%s does not hand its table parameter back", short(sc))
+			}
+			if err := collectUpdates(sc, o); err != nil {
+				return err
+			}
+			for i, prm := range sc.Params {
+				if prm == o && i < len(x.Common().Args) {
+					return collect(x.Common().Args[i], depth+1)
+				}
+			}
+			return fmt.Errorf("parameter not found")
+		}
+		return fmt.Errorf("unsupported table origin %T", m)
+	}
+	if err := collect(src, 0); err != nil {
+		return nil, err
+	}
+	var out []funcEntry
+	for _, e := range entries {
+		out = append(out, e)
+	}
+	sort.Slice(out, func(i, j int) bool { return out[i].Name < out[j].Name })
+	if len(out) == 0 {
+		return nil, fmt.Errorf("no entries found")
+	}
+	return out, nil
+}
+
+// structOriginOfMapResult: the parameter that every return of fn hands back (a map built by the caller).
+func structOriginOfMapResult(fn *ssa.Function) (*ssa.Parameter, bool) {
+	var res *ssa.Parameter
+	for _, b := range fn.Blocks {
+		ret, ok := b.Instrs[len(b.Instrs)-1].(*ssa.Return)
+		if !ok || len(ret.Results) != 1 {
+			continue
+		}
+		prm, ok := ret.Results[0].(*ssa.Parameter)
+		if !ok || (res != nil && res != prm) {
+			return nil, false
+		}
+		res = prm
+	}
+	return res, res != nil
+}
+
+func readField(e *funcEntry, field string, v ssa.Value) {
+	for {
+		if ct, ok := v.(*ssa.ChangeType); ok {
+			v = ct.X
+			continue
+		}
+		break
+	}
+	switch field {
+	case "Func":
+		if f, ok := v.(*ssa.Function); ok && f.Object() != nil {
+			e.Impl = f.Object()
+			if e.ImplName == "" {
+				e.ImplName = f.Object().Pkg().Name() + "." + f.Object().Name()
+			}
+		}
+	case "MinArity", "MaxArity":
+		if c, ok := v.(*ssa.Const); ok && c.Value != nil {
+			n, _ := constant.Int64Val(c.Value)
+			if field == "MinArity" {
+				e.Min = int(n)
+			} else {
+				e.Max = int(n)
+			}
+		}
+	}
 }
